@@ -253,6 +253,51 @@ class FuncView:
                 out.add(src(self.sym(e, target)))
             except Exception:
                 pass
+        # a guard spelled as a call of a one-expression predicate method (`ix.idled()` with
+        # `def idled(self): return self.timeout > 0.0 and self.timer.expired`) contributes that expression's conjuncts
+        for f in list(out):
+            try:
+                e = ast.parse(f, mode="eval").body
+            except Exception:
+                continue
+            if isinstance(e, ast.Call) and not e.args and not e.keywords and isinstance(e.func, ast.Attribute):
+                cands = []
+                for m in self.ctx.repo.modules.values():
+                    if m.is_test:
+                        continue
+                    for c in m.tree.body:
+                        if isinstance(c, ast.ClassDef):
+                            for fn in c.body:
+                                if isinstance(fn, ast.FunctionDef) and fn.name == e.func.attr and len(fn.args.args) == 1:
+                                    cands.append(fn)
+                if len(cands) == 1:
+                    fn = cands[0]
+                    selfname = fn.args.args[0].arg
+                    recv = src(e.func.value)
+                    try:
+                        W = FuncView(self.ctx, fn)
+                    except Exception:
+                        continue
+                    rets = [r for r in W.cfg.nodes if r.kind == "return"]
+                    truthy = [r for r in rets if not (r.ast.value is None or
+                                                      (isinstance(r.ast.value, ast.Constant) and not r.ast.value.value))]
+                    if len(truthy) != 1 or any(x.kind == "for" or (x.kind == "test" and isinstance(x.ast, ast.While)) for x in W.cfg.nodes):
+                        continue
+                    # the call is truthy only along that return: the guards on the way to it and what it returns all hold
+                    parts = set(W.facts(truthy[0]))
+                    v = truthy[0].ast.value
+                    if not isinstance(v, ast.Constant):
+                        for part in (v.values if isinstance(v, ast.BoolOp) and isinstance(v.op, ast.And) else [v]):
+                            parts.add(src(part))
+
+                    class R(ast.NodeTransformer):
+                        def visit_Name(self, n):
+                            return ast.parse(recv, mode="eval").body if n.id == selfname else n
+                    for ptxt in parts:
+                        try:
+                            out.add(src(R().visit(ast.parse(ptxt, mode="eval").body)))
+                        except Exception:
+                            pass
         return out
 
     def nodes(self, kind=None, pred=None):
